@@ -21,6 +21,7 @@ CONSTANTS P,          \* prime modulus with P % 3 = 2
           Seed, NX, NY, NZ    \* parameters of the seeded domains
 
 ASSUME P \in Nat /\ P > 1 /\ P % 3 = 2
+ASSUME P <= 10007     \* sums of twelve products of residues must fit TLC's 32-bit integers
 
 M(n) == n % P
 
